@@ -115,7 +115,7 @@ pub fn exec(a: &[&str]) -> String {
     with_named_kmer!(a[0], run, a[1], a[2], &seq, &a[4..])
 }
 
-const KTYPES: [(&str, usize); 15] = [("Kmer2", 2), ("Kmer4", 4), ("Kmer5", 5), ("Kmer8", 8), ("Kmer12", 12), ("Kmer16", 16), ("Kmer20", 20),
+const KTYPES: [(&str, usize); 16] = [("V128K41", 41), ("Kmer2", 2), ("Kmer4", 4), ("Kmer5", 5), ("Kmer8", 8), ("Kmer12", 12), ("Kmer16", 16), ("Kmer20", 20),
     ("K31", 31), ("Kmer32", 32), ("Kmer40", 40), ("Kmer48", 48), ("Kmer64", 64), ("VK4", 4), ("V16K4", 4), ("V128K31", 31)];
 
 fn container(rng: &mut Rng, k: usize, allow_bytes: bool) -> (String, Vec<u8>, usize) {
@@ -168,10 +168,11 @@ pub fn gen(rng: &mut Rng, _tier: &str) -> String {
         return format!("C13 {} kmersa {}", kt, crate::c10::ascii_noise(rng, len.max(1)));
     }
     let (spec, seq, n) = container(rng, k, true);
-    match rng.below(4) {
+    match rng.below(5) {
         0 | 1 if n >= k => format!("C13 {} getkmer {} {} {}", kt, spec, show_digits(&seq), rng.below(n - k + 1)),
         2 => format!("C13 {} iterexts {} {} {:02x}", kt, spec, show_digits(&seq), rng.below(256)),
         3 if n >= k => format!("C13 {} term {} {}", kt, spec, show_digits(&seq)),
+        // the plain k-mer iterator, on sequences of every length (it used to be drawn only as the fall-back for sequences shorter than K)
         _ => format!("C13 {} iter {} {}", kt, spec, show_digits(&seq)),
     }
 }
